@@ -13,7 +13,7 @@ package ice
 //   start <A|B> <ctl> <ru> <rp>    creds <A|B> <ru> <rp>   adv <ms>   deliver|drop|dup <k>
 //   inject <A|B> <localAddr> <src> <msgspec>   data <A|B> <localAddr> <src> <len> <stunlike>
 //   write <A|B> <len> <stunlike>   writepair <A|B> <id> <len> <stunlike>   read <A|B>
-//   renom <A|B> <laddr> <ridx> <value>   restart <A|B> <u> <p>   close <A|B>   nat <src> <mapped>   block <src> <dst>   end
+//   renom <A|B> <laddr> <ridx> <value>   restart <A|B> <u> <p>   close <A|B>   nat <src> <mapped>   block <src> <dst>   mark <label>   end
 // address id k: ip id k/16, port 5000+k%16; net 0 = udp4 (10.0.0.<ip+1>), 1 = udp6 (fd00::<ip+1>).
 // credentials are tokens (u, p); the real strings are tok+"_ufrag" / tok+"_password_0123456789abcd"; "_" = empty.
 
@@ -909,6 +909,9 @@ func (s *vSession) exec(t []string) string {
 		h.closed = true
 		synctest.Wait()
 		return s.render(vErr(err))
+	case "mark":
+		// no-op marker for the spec monitors (e.g. "mark fairend": the fair loss-free suffix is over)
+		return s.render("-")
 	case "nat":
 		s.hub.nat = append(s.hub.nat, [2]int{vAtoi(t[1]), vAtoi(t[2])})
 		return s.render("ok")
